@@ -267,7 +267,7 @@ def run(ctx):
     for tls in (False, True):
         for ops in small_scope(tls, depth):
             add(tls, ops, "small")
-        for _ in range(ctx.n(400, 4000)):
+        for _ in range(ctx.n(1500, 8000)):
             add(tls, random_ops(ctx.rng, tls), "random")
 
     try:
